@@ -14,7 +14,7 @@
 from __future__ import annotations
 
 from typing import Callable
-from itertools import groupby
+from collections import Counter
 
 import numpy as np
 from qiskit.circuit import Qubit, QuantumCircuit, Operation
@@ -94,7 +94,7 @@ def _circuit_structure_mapping(
         circuit.find_bit(instruction.qubits[0]).index
         for instruction in circuit.get_instructions("cut_wire")
     ]
-    cut_wire_freq = {key: len(list(group)) for key, group in groupby(cut_wire_index)}
+    cut_wire_freq = Counter(cut_wire_index)
 
     # Get intermediate mapping and add quantum bits to new_circuit
     for qubit in circuit.qubits:
